@@ -252,6 +252,37 @@ def tupleVariantEnd (f : Fmt) (state : State) (st : FState) : W :=
 def structVariantEnd (f : Fmt) (state : State) (st : FState) : W :=
   ((mapEnd f state st).andThen (endObjectValue f)).andThen (endObject f)
 
+/-- what the caller does once the elements of a seq / tuple / tuple struct opened by `o` have been
+    serialised (`res`): propagate the error (`tri!`), or call `end` -/
+def finishSeq (f : Fmt) (o : WS) (res : Except SerErr WS) : Except SerErr W :=
+  match res with
+  | .error e => .error e
+  | .ok r => .ok ((W.mk (o.bufs ++ r.bufs) r.st).andThen (seqEnd f r.state))
+
+/-- likewise for a map / struct -/
+def finishMap (f : Fmt) (o : WS) (res : Except SerErr WS) : Except SerErr W :=
+  match res with
+  | .error e => .error e
+  | .ok r => .ok ((W.mk (o.bufs ++ r.bufs) r.st).andThen (mapEnd f r.state))
+
+/-- `serialize_newtype_variant` after the payload: `end_object_value`, `end_object` -/
+def finishNewtypeVariant (f : Fmt) (a : W) (res : Except SerErr W) : Except SerErr W :=
+  match res with
+  | .error e => .error e
+  | .ok r => .ok (((W.mk (a.bufs ++ r.bufs) r.st).andThen (endObjectValue f)).andThen (endObject f))
+
+/-- tuple variant: `a` = the `{"variant":` prefix, `o` = the inner `serialize_seq` -/
+def finishTupleVariant (f : Fmt) (a : W) (o : WS) (res : Except SerErr WS) : Except SerErr W :=
+  match res with
+  | .error e => .error e
+  | .ok r => .ok ((W.mk (a.bufs ++ o.bufs ++ r.bufs) r.st).andThen (tupleVariantEnd f r.state))
+
+/-- struct variant -/
+def finishStructVariant (f : Fmt) (a : W) (o : WS) (res : Except SerErr WS) : Except SerErr W :=
+  match res with
+  | .error e => .error e
+  | .ok r => .ok ((W.mk (a.bufs ++ o.bufs ++ r.bufs) r.st).andThen (structVariantEnd f r.state))
+
 /-- `begin_string`, one number/bool buffer, `end_string` (keys of scalar type) -/
 def quoted (text : Bytes) : List Bytes := [Gen.serBeginString, text, Gen.serEndString]
 
@@ -278,6 +309,7 @@ def keySer (ext : Ext) : SVal → Except SerErr (List Bytes)
   | .bytes _ | .unit | .unitStruct | .newtypeVariant _ _ | .none | .seq _ _ | .tuple _
   | .tupleStruct _ | .tupleVariant _ _ | .map _ _ | .struct_ _ | .structVariant _ _
   | .numberLit _ => .error .keyMustBeAString
+termination_by structural p => p
 
 mutual
 /-- `value.serialize(&mut *ser)` for the program `value` -/
@@ -298,44 +330,34 @@ def ser (ext : Ext) (f : Fmt) : SVal → FState → Except SerErr W
   | .newtypeStruct p, st => ser ext f p st
   | .newtypeVariant v p, st =>
     let a := variantOpen f v st
-    match ser ext f p a.st with
-    | .error e => .error e
-    | .ok r => .ok ((W.mk (a.bufs ++ r.bufs) r.st |>.andThen (endObjectValue f)).andThen (endObject f))
-  | .seq hint xs, st => serSeqBody ext f (serializeSeq f hint st) xs
-  | .tuple xs, st => serSeqBody ext f (serializeSeq f (some xs.length) st) xs
-  | .tupleStruct xs, st => serSeqBody ext f (serializeSeq f (some xs.length) st) xs
+    finishNewtypeVariant f a (ser ext f p a.st)
+  | .seq hint xs, st =>
+    let o := serializeSeq f hint st
+    finishSeq f o (serElems ext f xs o.state o.st)
+  | .tuple xs, st =>
+    let o := serializeSeq f (some xs.length) st
+    finishSeq f o (serElems ext f xs o.state o.st)
+  | .tupleStruct xs, st =>
+    let o := serializeSeq f (some xs.length) st
+    finishSeq f o (serElems ext f xs o.state o.st)
   | .tupleVariant v xs, st =>
     let a := variantOpen f v st
     let o := serializeSeq f (some xs.length) a.st
-    match serElems ext f xs o.state o.st with
-    | .error e => .error e
-    | .ok r => .ok (W.mk (a.bufs ++ o.bufs ++ r.bufs) r.st |>.andThen (tupleVariantEnd f r.state))
+    finishTupleVariant f a o (serElems ext f xs o.state o.st)
   | .map hint es, st =>
     let o := serializeMap f hint st
-    match serEntries ext f es o.state o.st with
-    | .error e => .error e
-    | .ok r => .ok (W.mk (o.bufs ++ r.bufs) r.st |>.andThen (mapEnd f r.state))
+    finishMap f o (serEntries ext f es o.state o.st)
   | .struct_ fs, st =>
     let o := serializeMap f (some fs.length) st
-    match serFields ext f fs o.state o.st with
-    | .error e => .error e
-    | .ok r => .ok (W.mk (o.bufs ++ r.bufs) r.st |>.andThen (mapEnd f r.state))
+    finishMap f o (serFields ext f fs o.state o.st)
   | .structVariant v fs, st =>
     let a := variantOpen f v st
     let o := serializeMap f (some fs.length) a.st
-    match serFields ext f fs o.state o.st with
-    | .error e => .error e
-    | .ok r => .ok (W.mk (a.bufs ++ o.bufs ++ r.bufs) r.st |>.andThen (structVariantEnd f r.state))
+    finishStructVariant f a o (serFields ext f fs o.state o.st)
   | .collectStr s, st => .ok (write (collectStr s) st)
   -- arbitrary_precision: Compound::Number → NumberStrEmitter::serialize_str → write_number_str
   | .numberLit s, st => .ok (write [s] st)
-
-/-- the elements and `end` of a seq / tuple / tuple struct opened by `o` -/
-def serSeqBody (ext : Ext) (f : Fmt) (o : WS) : List SVal → Except SerErr W
-  | xs =>
-    match serElems ext f xs o.state o.st with
-    | .error e => .error e
-    | .ok r => .ok (W.mk (o.bufs ++ r.bufs) r.st |>.andThen (seqEnd f r.state))
+termination_by structural p => p
 
 /-- `SerializeSeq::serialize_element` for each element:
 ```rust
